@@ -8,6 +8,8 @@ import (
 	"net/netip"
 	"time"
 
+	"golang.org/x/sys/unix"
+
 	"github.com/scionproto/scion/pkg/addr"
 	"github.com/scionproto/scion/pkg/snet"
 	spath "github.com/scionproto/scion/pkg/snet/path"
@@ -99,18 +101,32 @@ type seenDgram struct {
 	b  []byte
 }
 
+// drain reads whatever is queued on the sinks without waiting: on loopback a datagram is in
+// the receiver's queue when the sender's write returns. (A read deadline is no substitute: under
+// load the deadline can expire before the read is attempted, and the read then fails although
+// data is queued.)
 func (s *sinkSet) drain() (out []seenDgram) {
 	buf := make([]byte, 4096)
 	for _, k := range s.sinks {
+		rc, err := k.conn.SyscallConn()
+		if err != nil {
+			continue
+		}
 		for {
-			k.conn.SetReadDeadline(time.Now().Add(200 * time.Microsecond)) // loopback: whatever was sent is queued already
-			n, _, err := k.conn.ReadFromUDPAddrPort(buf)
-			if err != nil {
+			n := -1
+			rc.Read(func(fd uintptr) bool {
+				var e error
+				n, _, e = unix.Recvfrom(int(fd), buf, unix.MSG_DONTWAIT)
+				if e != nil {
+					n = -1
+				}
+				return true // never wait
+			})
+			if n < 0 {
 				break
 			}
 			out = append(out, seenDgram{k.ap, append([]byte(nil), buf[:n]...)})
 		}
-		k.conn.SetReadDeadline(time.Time{})
 	}
 	return
 }
@@ -264,9 +280,9 @@ func genNTSDest(c *lib.Ctx, tag string) {
 					parsedTok = "x" + lib.Hex(ip)
 				}
 				// reach: a datagram to the named address can leave the client's socket (bound to
-				// 127.0.0.1) and be seen — IPv4 loopback; over SCION to another AS the underlay
-				// destination is the path's next hop whatever is named
-				reach := want.IsValid() && (tr == ntsTrSCION || want.Addr().Is4() && want.Addr().IsLoopback())
+				// 127.0.0.1) and be seen — IPv4 loopback with a sink on it; over SCION to another AS
+				// the underlay destination is the path's next hop whatever is named
+				reach := want.IsValid() && (tr == ntsTrSCION || want.Addr().Is4() && want.Addr().IsLoopback() && sinks.has(want))
 				var sent []string
 				bad := ""
 				for _, d := range seen {
@@ -331,7 +347,7 @@ func genNTSDest(c *lib.Ctx, tag string) {
 						replay, detail)
 				case !want.IsValid() && resTok == "ok":
 					c.Fail("C20:client:nts-request-destination", "the key exchange named no IP literal, yet the measurement call succeeded", replay, detail)
-				case reach && len(sent) == 0 && (tr == ntsTrSCION || sinks.has(want)):
+				case reach && len(sent) == 0:
 					c.Fail("C20:client:nts-request-not-sent", "the key exchange named a reachable server and port, but no request arrived there", replay, detail)
 				}
 				if res.panic != "" {
